@@ -369,7 +369,7 @@ def run_property(ctx, prop, n_quick, n_thorough, extra=None, assumptions=None, e
             if not pok:
                 info["prop_log"] = info.get("prop_log", "") + ("Properties/%s.v did not compile: " % pf) + plog[-2500:]
     if info["hbin"] is None:
-        raise RuntimeError("harness build failed:\n" + info.get("go_log", ""))
+        raise C.HarnessBuildFailed(info.get("go_log", ""))
     fam = FamilyRun(ctx, info, prop)
     n = n_quick if ctx.tier == "quick" else n_thorough
     corpus = load_corpus(prop)
